@@ -270,6 +270,9 @@ class DeviceSim(object):
         # 20 "random" bytes, distinct per challenge and per connection
         import hashlib
         tok = hashlib.sha1(bytes(seeds) + struct.pack("<2I", self.connects, n)).digest()
+        explicit = self.cfg.get("tokens")
+        if explicit:
+            tok = bytes(explicit[n % len(explicit)])          # the check dictates the challenges (e.g. the all-zero token)
         self.tokens_issued.append(tok)
         return tok
 
@@ -630,7 +633,8 @@ class SyncService(object):
                 del self.buf[:8]
                 continue
             if id_ in (wire.ID_LIST, wire.ID_STAT, wire.ID_RECV, wire.ID_SEND):
-                if n > 1024:
+                # the property quantifies over device paths of up to 1024 bytes; for SEND the request carries '<path>,<mode>' (up to 11 bytes more)
+                if n > (1024 + 11 if id_ == wire.ID_SEND else 1024):
                     self.sim._violation("sync-path-too-long", "%d" % n)
                 if len(self.buf) < 8 + n:
                     return
